@@ -9,10 +9,12 @@ package gocql
 
 import (
 	"bufio"
+	"context"
 	"encoding/json"
 	"fmt"
 	"net"
 	"os"
+	"runtime"
 	"sort"
 	"strings"
 	"sync"
@@ -185,6 +187,7 @@ type vfC16Rec struct {
 	Refreshes int         `json:"refreshes"`
 	Err       string      `json:"err"`
 	Panic     string      `json:"panic"`
+	Stuck     string      `json:"stuck"` // "" | what the goroutines' stacks show about a call that cannot return
 	Waited    int         `json:"waited_ms"`
 	Matched   bool        `json:"matched"`
 }
@@ -230,10 +233,31 @@ type vfC16World struct {
 	holdHandler chan struct{} // non-nil: the next node event handler parks before it reads its frames
 	handlerHeld chan struct{}
 	parked      bool
+	noBeat      int32 // the control connection's heartbeat does not get through (its period "has not elapsed yet")
+	stuck       string
 	async       bool // refresh steps do not wait for the call to return (set while a step is held)
 	holdPeers   bool // the next system.peers answer is withheld (after the rows have been read)
 	peersHeld   chan struct{}
 	heldReply   func()
+}
+
+// vfC16Dialer is the schedule control for the control connection's heartbeat, which has no hook:
+// while noBeat is set, a dial made from the heartbeat goroutine is refused, i.e. the session behaves
+// as if the heartbeat's period had not elapsed yet; every other dial (pools, a reconnection started
+// by anybody else) goes through.
+type vfC16Dialer struct {
+	inner *vfDialer
+	w     *vfC16World
+}
+
+func (d *vfC16Dialer) DialHost(ctx context.Context, host *HostInfo) (*DialedHost, error) {
+	if atomic.LoadInt32(&d.w.noBeat) == 1 {
+		buf := make([]byte, 8192)
+		if st := string(buf[:runtime.Stack(buf, false)]); strings.Contains(st, "controlConn).heartBeat") {
+			return nil, &net.OpError{Op: "dial", Net: "tcp", Err: fmt.Errorf("vf: not yet")}
+		}
+	}
+	return d.inner.DialHost(ctx, host)
 }
 
 // vfC16Policy wraps the round-robin policy to see when the session's asynchronous
@@ -573,6 +597,7 @@ func vfC16NewWorld(sc *vfC16Scenario) (*vfC16World, error) {
 	}
 	w.dialer = vfNewDialer(nodes...)
 	cfg := vfClusterConfig(w.dialer, 4, vfC16IP("a0"))
+	cfg.HostDialer = &vfC16Dialer{inner: w.dialer, w: w}
 	vfC16InstallScope()
 	var inner HostSelectionPolicy
 	switch sc.Pol {
@@ -857,9 +882,23 @@ func (w *vfC16World) controlIdle() bool {
 	n.mu.Unlock()
 	ch := c.getConn()
 	if ch == nil || ch.conn.Closed() {
-		return down
+		return down || atomic.LoadInt32(&w.noBeat) == 1
 	}
 	return true
+}
+
+// selfWait looks at the goroutines' stacks for the one thing that makes a pending refresh hopeless:
+// the goroutine that performs this session's refreshes (the refresh debouncer's flusher) is itself
+// inside Session.refreshRing, waiting for a refresh nobody else can perform.
+func (w *vfC16World) selfWait() string {
+	me := fmt.Sprintf("refreshDebouncer).flusher(%p)", w.s.ringRefresher)
+	buf := make([]byte, 16<<20)
+	for _, g := range strings.Split(string(buf[:runtime.Stack(buf, true)]), "\n\n") {
+		if strings.Contains(g, me) && strings.Contains(g, "(*Session).refreshRing(") {
+			return "refresher-waits-for-its-own-refresh"
+		}
+	}
+	return ""
 }
 
 func (w *vfC16World) idle() bool {
@@ -1063,9 +1102,33 @@ func (w *vfC16World) exec(st *vfC16Step) (errs string, pan string) {
 			return "", ""
 		}
 		var err error
-		ok, _ := vfWithin(20*time.Second, func() { err = w.s.refreshRing() })
+		done := make(chan struct{})
+		go func() {
+			err = w.s.refreshRing()
+			close(done)
+		}()
+		returned := w.await(func() bool {
+			select {
+			case <-done:
+				return true
+			default:
+				// every 3 s of process time: can the call still return?
+				if t := atomic.LoadInt64(&vfC16Ticks); t%300 == 299 {
+					if w.stuck = w.selfWait(); w.stuck != "" {
+						return true
+					}
+				}
+				return false
+			}
+		})
 		w.setFail("none")
-		if !ok {
+		if w.stuck != "" {
+			return "", ""
+		}
+		if !returned {
+			if w.stuck = w.selfWait(); w.stuck != "" {
+				return "", ""
+			}
 			return "hang", ""
 		}
 		if err != nil {
@@ -1146,6 +1209,18 @@ func (w *vfC16World) exec(st *vfC16Step) (errs string, pan string) {
 		if st.Addr == "a0" && w.sc.Mode == "direct" {
 			// the control connection's heartbeat (1 s period) notices and reconnects; direct
 			// mode does not wait for the period to elapse
+			vfWithin(8*time.Second, w.s.control.reconnect)
+		}
+	case "heal":
+		// the control node answers again; the heartbeat has not come round yet
+		w.setTruth(st.Rows)
+		atomic.StoreInt32(&w.noBeat, 1)
+		w.setDown("a0", false)
+	case "reconnect":
+		// the heartbeat comes round and re-establishes the control connection
+		w.setTruth(st.Rows)
+		atomic.StoreInt32(&w.noBeat, 0)
+		if w.sc.Mode == "direct" {
 			vfWithin(8*time.Second, w.s.control.reconnect)
 		}
 	case "ctllost":
@@ -1277,6 +1352,16 @@ func vfC16Run(sc *vfC16Scenario, out *vfNDJSON) (steps int, timeouts int, err er
 			continue
 		}
 		errs, pan := w.exec(st)
+		if w.stuck != "" {
+			// nothing will settle: the state as it is, with what the stacks show
+			rec := w.project(false)
+			fill(rec, k+1, st)
+			rec.Stuck = w.stuck
+			out.Write(rec)
+			steps++
+			w.mismatch = true
+			break
+		}
 		rec, m, wt := w.settle(st.Exp, base, 0, 0)
 		fill(rec, k+1, st)
 		rec.Err, rec.Panic, rec.Matched, rec.Waited = errs, pan, m, int(wt/time.Millisecond)
